@@ -32,6 +32,24 @@ USER_LIKE = ["U { n: =~ Even, .. }", "U { s: =~ Prefix(\"he\"), .. }", "U { s: =
              # operands of every expression shape: beginning with a string literal, a call, a block, a reference, parenthesised
              "U { s: =~ \"he\".prefix(), .. }", "U { s: =~ \"zz\".prefix(), .. }", "U { s: =~ \"hello\".len().l(), .. }", "U { s: =~ (\"he\").prefix(), .. }",
              "U { n: =~ even(), .. }", "U { n: =~ { Even }, .. }", "U { s: =~ Prefix(&\"hello\"[..2]), .. }", "U { s: =~ r\"he\".prefix(), .. }"]
+# assertions over user Like impls whose ACCEPTANCE is not obvious (the pattern expression is a reference, a box, an Rc; the value a &str, a
+# Cow, a reference to a String; several Like impls on one value type, so that inference cannot pick the only one): whatever rustc says of
+# each - accepted or rejected - it must say in BOTH configurations, with the same verdict: no regex literal is involved anywhere
+AGREE_DECLS = r'''
+use std::borrow::Cow; use std::rc::Rc;
+impl assert_struct::Like<Prefix> for &str { fn like(&self, p: &Prefix) -> bool { self.starts_with(p.0) } }
+impl assert_struct::Like<Len> for &str { fn like(&self, n: &Len) -> bool { self.len() == n.0 } }
+#[derive(Debug)] struct V2 { s: String, r: &'static str, c: Cow<'static, str>, rs: &'static String, n: i32, o: Option<String> }
+fn v2() -> V2 { V2 { s: "hello".to_string(), r: "hello", c: Cow::Borrowed("hello"), rs: Box::leak(Box::new("hello".to_string())), n: 4, o: Some("hello".to_string()) } }
+fn by_ref(p: &Prefix, l: &Len, e: &Even) -> (bool, bool) { let v = v2(); let _ = (p, l, e); (true, true) }
+'''
+AGREE = ["V2 { s: =~ &Prefix(\"he\"), .. }", "V2 { s: =~ &Len(5), .. }", "V2 { s: =~ pref, .. }", "V2 { s: =~ *pref, .. }", "V2 { s: =~ &&Prefix(\"he\"), .. }",
+         "V2 { s: =~ Box::new(Prefix(\"he\")), .. }", "V2 { s: =~ Rc::new(Len(5)), .. }", "V2 { r: =~ Prefix(\"he\"), .. }", "V2 { r: =~ &Prefix(\"he\"), .. }",
+         "V2 { r: =~ lenr, .. }", "V2 { c: =~ Prefix(\"he\"), .. }", "V2 { c: =~ &Len(5), .. }", "V2 { rs: =~ Prefix(\"he\"), .. }", "V2 { rs: =~ pref, .. }",
+         "V2 { n: =~ &Even, .. }", "V2 { n: =~ evr, .. }", "V2 { o: Some(=~ pref), .. }", "V2 { o: Some(=~ &Len(4)), .. }", "V2 { s.as_str(): =~ pref, .. }",
+         "V2 { s.clone(): =~ &Prefix(\"zz\"), .. }", "_ { s: =~ lenr, .. }", "V2 { s: =~ &&Len(5), .. }", "V2 { o: Some(=~ Box::new(Prefix(\"he\"))), .. }", "V2 { rs: =~ &Len(5), .. }"]
+# (patterns of type String / &str are NOT in this list: the library's own Like<String> / Like<&str> impls for strings compile their operand as a
+# regex, and are part of what the feature provides)
 # regex literals in every position: must be rejected at compile time without the feature
 REGEX_LIT = ["U { s: =~ r\"^he\", .. }", "U { s: =~ \"^he\", .. }", "_ { s: =~ r\"lo$\", .. }", "U { n: 4, s: =~ r\"x\", .. }",
              "U { o: Some(7), s: =~ r\"^h\", v: [2, 3], .. }"]
@@ -143,6 +161,32 @@ def run(res):
                 if failing <= 3:
                     res.violation("failing-input", "case %s gives a different verdict or report without the regex feature" % cid,
                                   {"with_feature": la[cid][:600], "without_feature": (lb.get(cid) or "")[:600]})
+    # ---- (A') acceptance itself must not depend on the feature where no regex literal is involved -------
+    name_g = "direct:an assertion without a regex literal is accepted, and gives the same verdict, in both configurations or in neither (%d programs)" % len(AGREE)
+    res.obligations.append(name_g)
+    aprogs = [program(["    run_case(\"g\", || { let v = v2(); let (pref, lenr, evr, pats): (&Prefix, &Len, &Even, &str) = (&Prefix(\"he\"), &Len(5), &Even, \"^he\"); "
+                       "let _ = (pref, lenr, evr, pats); assert_struct!(v, %s); });" % p_], USER_DECLS + AGREE_DECLS) for p_ in AGREE]
+    a_on = e2e.compile_many(aprogs, run=True, regex=True, tag="c16g")
+    a_off = e2e.compile_many(aprogs, run=True, regex=False, tag="c16g")
+    e2e.cleanup("c16g")
+    agree_bad = 0
+    agree_stats = {"accepted_in_both": 0, "rejected_in_both": 0}
+    for p_, a, b, src in zip(AGREE, a_on, a_off, aprogs):
+        if a["compiled"] != b["compiled"]:
+            why = "is accepted with default features and rejected with default-features = false" if a["compiled"] else "is rejected with default features and accepted with default-features = false"
+            first = next((l for l in (b if a["compiled"] else a)["stderr"].splitlines() if l.startswith("error")), "")
+        elif a["compiled"] and case_lines(a.get("stdout", "")) != case_lines(b.get("stdout", "")):
+            why, first = "gives a different verdict or report in the two configurations", ""
+        else:
+            agree_stats["accepted_in_both" if a["compiled"] else "rejected_in_both"] += 1
+            continue
+        agree_bad += 1
+        failing += 1
+        if agree_bad <= 3:
+            res.violation("failing-input", "`%s` (no regex literal and no string operand; user Like impls only) %s %s" % (p_, why, first[:160]), {"program": src[-2500:]})
+    res.streams["acceptance_agrees"] = dict(agree_stats, programs=len(AGREE), failures=agree_bad)
+    if not agree_bad:
+        res.discharged.append(name_g)
     # ---- (B) regex literals: accepted with the feature, rejected at compile time without -------
     lit_progs = [program(["    run_case(\"r\", || { let v = u(); assert_struct!(v, %s); });" % p], USER_DECLS) for p in REGEX_LIT] + \
                 [program(["    run_case(\"r\", || { let v: %s = %s; assert_struct!(v, %s); });" % (t, v, p)]) for t, v, p in REGEX_LIT_OTHER]
